@@ -124,6 +124,65 @@ def run(ctx, config='rel-all'):
                 ctx.violation('R3', arena.short(b['id']), 'box-frees', 'Box code calls %s: a Box must never release or move arena memory' % c, t.get('span'))
     if not bad:
         ctx.ok('R3', 'no function in boxed.rs calls an arena deallocation/reallocation entry', 'call inventory')
+    # ---- R5 ownership transfers: the value is handed over exactly once (no destructor runs in the transfer itself)
+    def box_fn(name):
+        bs = [b for b in db.fn_bodies() if b['kind'] == 'assoc_fn' and b['meta'].get('name') == name and (b['meta'].get('impl_adt') or '').endswith('boxed::Box') and not b['meta'].get('impl_trait')]
+        if not bs:
+            ctx.anchor_missing('R5', 'Box::' + name)
+        return bs[0] if bs else None
+    PTR = ('app', 'proj', ('param', 1), 'boxed::Box.0')
+    n5 = 0
+
+    def normal_drops(b, I, r):
+        g = I.cfg(b)
+        return [e for e in r.events if e.kind in ('drop', 'drop_in_place') and len(e.stack) == 1 and not b['blocks'][e.block].get('cleanup')]
+    b = box_fn('into_raw')
+    if b:
+        I, r = arena.run_fn(ctx, b['id'], config)
+        n5 += 1
+        if r.ret == PTR and not normal_drops(b, I, r):
+            ctx.ok('R5', 'Box::into_raw returns the pointee address and runs no destructor', 'return term + no Drop on a normal path')
+        else:
+            ctx.violation('R5', 'Box::into_raw', 'into_raw', 'Box::into_raw must return exactly the pointer it holds (%s) without dropping the value' % show(r.ret)[:80], b.get('span'))
+    b = box_fn('from_raw')
+    if b:
+        I, r = arena.run_fn(ctx, b['id'], config)
+        n5 += 1
+        okv = r.ret is not None and r.ret[0] == 'agg' and field_of(r.ret, '0') == ('param', 1)
+        if okv:
+            ctx.ok('R5', 'Box::from_raw wraps exactly the given pointer', 'return aggregate')
+        else:
+            ctx.violation('R5', 'Box::from_raw', 'from_raw', 'Box::from_raw must wrap exactly its argument: %s' % show(r.ret)[:80], b.get('span'))
+    b = box_fn('leak')
+    if b:
+        I, r = arena.run_fn(ctx, b['id'], config)
+        n5 += 1
+        if r.ret == PTR and not normal_drops(b, I, r):
+            ctx.ok('R5', 'Box::leak returns a reference to the pointee and runs no destructor', 'return term')
+        else:
+            ctx.violation('R5', 'Box::leak', 'leak', 'Box::leak must hand out the pointee without dropping it: %s' % show(r.ret)[:80], b.get('span'))
+    b = box_fn('into_inner')
+    if b:
+        I, r = arena.run_fn(ctx, b['id'], config)
+        n5 += 1
+        rd = [e for e in r.events if e.kind == 'call' and len(e.stack) == 1 and (e.callee or '').endswith('ptr::read')]
+        okv = len(rd) == 1 and rd[0].args[0] == PTR and r.ret == rd[0].ret and not normal_drops(b, I, r)
+        if okv:
+            ctx.ok('R5', 'Box::into_inner moves the value out with one ptr::read of the pointee and does not drop it in place', 'return term + no Drop')
+        else:
+            ctx.violation('R5', 'Box::into_inner', 'into_inner', 'Box::into_inner must move the pointee out exactly once (one read of the held pointer, no destructor on the box): %s' % show(r.ret)[:80], b.get('span'))
+    for name in ('new_in', 'pin_in'):
+        b = box_fn(name)
+        if b:
+            I, r = arena.run_fn(ctx, b['id'], config)
+            n5 += 1
+            al = [e for e in r.events if e.kind == 'call' and len(e.stack) == 1 and (e.callee or '').endswith('::alloc')]
+            okv = len(al) == 1 and al[0].args == [('param', 2), ('param', 1)] and r.ret is not None and (al[0].ret in subterms(r.ret)) and not normal_drops(b, I, r)
+            if okv:
+                ctx.ok('R5', 'Box::%s: the box holds exactly the pointer returned by a.alloc(x); x is moved, not dropped' % name, 'return aggregate contains the allocation result')
+            else:
+                ctx.violation('R5', 'Box::' + name, name, 'Box::%s must move its value into one arena allocation and hold that pointer' % name, b.get('span'))
+    ctx.floor('R5', n5, 6, 'ownership-transfer functions of Box')
     bd = [b for b in db.fn_bodies() if (b['meta'].get('impl_trait') or '').endswith('ops::drop::Drop') and (b['meta'].get('impl_adt') or '').endswith('boxed::Box')]
     for b in bd:
         I, r = arena.run_fn(ctx, b['id'], config)
